@@ -140,7 +140,7 @@ def run(ctx):
             ctx.sample({"family": "c10_num_syntax", "input": unhexs(c), "impl": i, "model": m}, limit=2)
 
     # (c) i32 -> IntValue -> text -> back
-    icases = [str(v) for v in gen_i32(ctx, 2000 if ctx.tier == "quick" else 500000)]
+    icases = [str(v) for v in gen_i32(ctx, 2000 if ctx.tier == "quick" else 100000)]
     rows = ctx.correspond(impl, model, "c10_i32", icases)
     oracle_rows(ctx, "c10_i32", rows, spec=lambda c: f"lit={c} back={c}", observed=lambda o: o,
                 what="IntValue::from(i32) is not the decimal literal of the number, or does not convert back")
@@ -149,7 +149,7 @@ def run(ctx):
 
     # (d) f64 -> FloatValue -> text -> valid literal, same bits back.  Rust's to_string is the input of the
     # model (its shape is the trusted assumption of C10_f64_shape_partial, checked here on every sample).
-    fbits = gen_f64(ctx, 3000 if ctx.tier == "quick" else 400000)
+    fbits = gen_f64(ctx, 3000 if ctx.tier == "quick" else 60000)
     raws = run_family(impl, "c10_f64_raw", fbits)
     fcases = [f"{b} {r}" for b, r in zip(fbits, raws)]
     rows = ctx.correspond(impl, model, "c10_f64", fcases,
